@@ -187,7 +187,7 @@ func (server *Server) open() error {
 func (server *Server) close() error {
 	if server.portListener != nil {
 		err := server.portListener.Close()
-		if err != nil {
+		if err != nil && !errors.Is(err, net.ErrClosed) {
 			return err
 		}
 		server.portListener = nil
@@ -195,7 +195,7 @@ func (server *Server) close() error {
 
 	if server.tlsPortListener != nil {
 		err := server.tlsPortListener.Close()
-		if err != nil {
+		if err != nil && !errors.Is(err, net.ErrClosed) {
 			return err
 		}
 		server.tlsPortListener = nil
